@@ -8,7 +8,9 @@
     internal/server/rename.go       PrepareRename, Rename
     internal/server/definition.go   findDefinitionTarget, commodityTarget, allJournalsWithPaths,
                                     sortedJournalPaths, pathToURI
-    internal/server/hover.go        positionInRange, getPayeeOrDescription, estimatePayeeRange
+    internal/server/hover.go        positionInRange, getPayeeOrDescription, (*columnMapper).payeeRange
+                                    (the walk over the header line: HL/Model/PayeeRange.lean),
+                                    estimatePayeeRange
     internal/server/position.go     columnMapper (lineColumn, toProtocol, runePosition), fileMappers
     internal/server/server.go       resolvedWithPrimaryPath, workspaceResolvedFor, GetResolved
     internal/workspace/workspace.go Workspace.Contains
@@ -36,6 +38,7 @@
 -/
 import HL.Model.Ast
 import HL.Model.Text
+import HL.Model.PayeeRange
 namespace HL.Refs
 open HL HL.Ast
 
@@ -123,10 +126,20 @@ def directiveCommodityRange (c : Commodity) : ARange :=
 def payeeOrDescription (tx : Transaction) : Bytes :=
   if tx.payee != [] then tx.payee else tx.description
 
-/-- `estimatePayeeRange`. -/
+/-- `estimatePayeeRange`: one column after the date, two more after a status mark (the whole
+    answer of the tree as pinned; now the fallback when the mapper has no text for the line). -/
 def estimatePayeeRange (tx : Transaction) (payee : Bytes) : ARange :=
   let startCol := tx.date.range.stop.col + 1 + (if tx.status != .none then 2 else 0)
   ⟨tx.date.range.start.line, startCol, tx.date.range.start.line, startCol + runeLen payee⟩
+
+/-- `(*columnMapper).payeeRange` (repo_patches/fix-payee-range.diff): the description is looked
+    up on the header line of the text the tree was parsed from (`lns`: the lines of the file's
+    mapper); the payee is a trimmed prefix of the description.  Without that line, or when the
+    line ends before a description: the estimate. -/
+def payeeRange (lns : Lines) (tx : Transaction) (payee : Bytes) : ARange :=
+  match HL.PayeeRange.payeeStart lns tx.date.range.start.line tx.date.range.stop.col with
+  | some col => ⟨tx.date.range.start.line, col, tx.date.range.start.line, col + runeLen payee⟩
+  | none => estimatePayeeRange tx payee
 
 /-- `postingCommodities`: amount, cost, assertion, in that order. -/
 def postingCommodities (p : Posting) : List Commodity :=
@@ -160,7 +173,7 @@ def targetInTxs (lns : Lines) (pos : LPos) : List Transaction → Option Target
   | [] => none
   | tx :: txs =>
     let payee := payeeOrDescription tx
-    let pr := estimatePayeeRange tx payee
+    let pr := payeeRange lns tx payee
     if payee != [] && positionInRange pos pr then some ⟨.payee, payee, toLsp lns pr⟩
     else match targetInPostings lns pos tx.postings with
       | some t => some t
@@ -269,7 +282,7 @@ def commodityLocs (lns : Lines) (symbol : Bytes) (incl : Bool) (path : Path) (j 
 
 def payeeLocs (lns : Lines) (payee : Bytes) (path : Path) (j : Journal) : List Loc :=
   j.transactions.filterMap fun tx =>
-    if payeeOrDescription tx == payee then some ⟨path, toLsp lns (estimatePayeeRange tx payee)⟩ else none
+    if payeeOrDescription tx == payee then some ⟨path, toLsp lns (payeeRange lns tx payee)⟩ else none
 
 /-- The `less` of `sortAndDedup`: URI, then start line, then start character. -/
 def locLt (a b : Loc) : Bool :=
